@@ -183,6 +183,26 @@ def run_ops(ctx: _Ctx, ops: list) -> list:
                 o["fmt"] = op.get("fmt", c.code_format.name)
                 code = t.transform(ctx.tree(op["code"]))
                 o["parts"] = [{"code": code, "meta": _meta_of(t)}]
+            elif kind == "fresh2":
+                # two ad-hoc transformers alive at the same time, used alternately; attributes are read at the end
+                def mk():
+                    return ctx.RZILTransformer(
+                        ctx.ArchEnum.HEXAGON,
+                        sub_routines=c.sub_routines,
+                        parameters=[
+                            Parameter("pkt", get_value_type_by_c_type("HexPkt")),
+                            Parameter("hi", get_value_type_by_c_type("HexInsn")),
+                            Parameter("bundle", get_value_type_by_c_type("HexInsnPktBundle")),
+                        ],
+                        return_type=get_value_type_by_c_type("RzILOpEffect"),
+                        code_format=ctx.CodeFormat[op.get("fmt", c.code_format.name)],
+                        macros=c.transformer.macros,
+                    )
+                t1, t2 = mk(), mk()
+                o["fmt"] = op.get("fmt", c.code_format.name)
+                code1 = t1.transform(ctx.tree(op["codes"][0]))
+                code2 = t2.transform(ctx.tree(op["codes"][1]))
+                o["parts"] = [{"code": code1, "meta": _meta_of(t1)}, {"code": code2, "meta": _meta_of(t2)}]
             elif kind == "add_sub":
                 c.add_sub_routine(op["name"], op["ret"], list(op["params"]), op["body"])
                 o["def"] = c.sub_routines[op["name"]].il_init(SubRoutineInitType.DEF)
